@@ -1,137 +1,28 @@
 import PewDriver.Util
-import PewModel.Register
+import PewModel.RegisterFast
 open Lean
 namespace PewDriver.C12
 open PewDriver Pew.Register
-
-def flatIndex : List Nat → List Nat → Option Nat
-  | [], [] => some 0
-  | s :: ss, i :: is =>
-    if i < s then (flatIndex ss is).map (fun r => i * ss.foldl (· * ·) 1 + r) else none
-  | _, _ => none
-
-def mkGet (shape : List Nat) (data : Array Rat) : List Nat → Rat := fun idx =>
-  match flatIndex shape idx with
-  | some k => data.getD k 0
-  | none => 0
 
 def parseImg (j : Json) : R Img := do
   let shape ← getList asNat j "shape"
   let data ← getList asRat j "data"
   if data.length ≠ shape.foldl (· * ·) 1 then throw "data/shape mismatch"
   if shape.any (· == 0) then throw "empty axis"
-  pure { shape := shape, get := mkGet shape data.toArray }
+  pure (mkImg shape data)
 
-/-! ## array twin of the correlation (evaluation machinery, NOT part of the model)
-
-The model reads an image through a function on index lists; `xcorr` / `xcorrCirc` cost about half a
-microsecond per product, which rules out axes whose transform length exceeds 1024 (10^6 .. 10^8
-products per call).  The twin below evaluates the same two sums on flat integer arrays (values are
-brought to a common denominator, the common factor of the numerators is taken out):
-
-* `fastLin`  — `xcorr a b l`  (`Σ_{n ∈ box b} a[n + l] · b[n]`, reads outside `a` are zero),
-* `fastCirc` — `xcorrCirc a b k` (`Σ_{n ∈ box b} apad[(n + k) mod s] · b[n]`; the terms `n ∉ box b`, which
-  the model adds as zeros, are skipped),
-
-and `peakOf` / `registerOf` are `Pew.Register.peak` / `register` with the correlation passed in.
-The twin is tied to the model at run time: `c12.register` (every case below the cost limit) evaluates
-the model AND the twin over the whole lag box and refuses to answer when they differ in anything;
-`c12.registerLong` cross-checks the twin against `xcorr` and `xcorrCirc` of the model at the decisive lags
-(maximum, runner-up, true translation, the implementation's answer, the mechanism's answer, the corners
-of the lag box, zero lag and a spread of other lags). -/
-
-structure FImg where
-  shape : List Nat
-  strides : List Nat
-  data : Array Int
-  /-- value = data · scale -/
-  scale : Rat
-
-def stridesOf : List Nat → List Nat
-  | [] => []
-  | _ :: ss => ss.foldl (· * ·) 1 :: stridesOf ss
-
-def toFImg (shape : List Nat) (data : List Rat) : FImg :=
-  let D := data.foldl (fun d q => Nat.lcm d q.den) 1
-  let ints := data.map fun q => q.num * ((D / q.den : Nat) : Int)
-  let G := ints.foldl (fun g v => Nat.gcd g v.natAbs) 0
-  let G := if G = 0 then 1 else G
-  { shape := shape, strides := stridesOf shape, data := (ints.map (· / (G : Int))).toArray,
-    scale := mkRat (G : Int) D }
-
-def sumLoop (lo n : Nat) (f : Nat → Int) : Int := go n lo 0
-where
-  go : Nat → Nat → Int → Int
-    | 0, _, acc => acc
-    | k + 1, i, acc => go k (i + 1) (acc + f i)
-
-/-- axes: `(a, b, stride of a, stride of b)` -/
-def linGo (A B : Array Int) : List (Nat × Nat × Nat × Nat) → List Int → Nat → Nat → Int
-  | [], _, ia, ib => A.getD ia 0 * B.getD ib 0
-  | [(a, b, sa, sb)], [l], ia, ib =>
-    -- innermost axis, the same sum as the general case written without the recursive call
-    let lo := (-l).toNat
-    let hi := min b ((a : Int) - l).toNat
-    sumLoop lo (hi - lo) fun n => A.getD (ia + ((n : Int) + l).toNat * sa) 0 * B.getD (ib + n * sb) 0
-  | (a, b, sa, sb) :: rest, l :: ls, ia, ib =>
-    -- the `n` with `0 ≤ n + l < a`, `n < b`
-    let lo := (-l).toNat
-    let hi := min b ((a : Int) - l).toNat
-    sumLoop lo (hi - lo) fun n => linGo A B rest ls (ia + ((n : Int) + l).toNat * sa) (ib + n * sb)
-  | _ :: _, [], _, _ => 0
-
-def circGo (A B : Array Int) : List (Nat × Nat × Nat × Nat) → List Nat → Nat → Nat → Int
-  | [], _, ia, ib => A.getD ia 0 * B.getD ib 0
-  | [(a, b, sa, sb)], [k], ia, ib =>
-    let s := a + b - 1
-    sumLoop 0 b fun n =>
-      let m := (n + k) % s
-      if m < a then A.getD (ia + m * sa) 0 * B.getD (ib + n * sb) 0 else 0
-  | (a, b, sa, sb) :: rest, k :: ks, ia, ib =>
-    let s := a + b - 1
-    sumLoop 0 b fun n =>
-      let m := (n + k) % s
-      if m < a then circGo A B rest ks (ia + m * sa) (ib + n * sb) else 0
-  | _ :: _, [], _, _ => 0
-
-def axesOf (a b : FImg) : List (Nat × Nat × Nat × Nat) :=
-  (List.zip (List.zip a.shape b.shape) (List.zip a.strides b.strides)).map
-    fun p => (p.1.1, p.1.2, p.2.1, p.2.2)
-
-def fastLin (a b : FImg) (l : List Int) : Rat :=
-  ((linGo a.data b.data (axesOf a b) l 0 0 : Int) : Rat) * (a.scale * b.scale)
-
-def fastCirc (a b : FImg) (k : List Nat) : Rat :=
-  ((circGo a.data b.data (axesOf a b) k 0 0 : Int) : Rat) * (a.scale * b.scale)
-
-/-- `Pew.Register.peak` with the correlation passed in -/
-def peakOfTable (tbl : List (List Int × Rat)) : Option Peak :=
-  match tbl with
-  | [] => none
-  | p :: ps =>
-    let best := ps.foldl (fun best q => if best.2 < q.2 then q else best) p
-    let others := ((p :: ps).filter (fun q => q.1 != best.1)).map (·.2)
-    let ru := match others with
-      | [] => none
-      | o :: os => some (os.foldl (fun m v => if m < v then v else m) o)
-    some { lag := best.1, value := best.2, runnerUp := ru }
-
-def peakOf (f : List Int → Rat) (ls : List (List Int)) : Option Peak :=
-  peakOfTable (ls.map (fun l => (l, f l)))
-
-/-- `Pew.Register.register` with the circular correlation passed in -/
-def registerOf (f : List Nat → Rat) (sa sb : List Nat) : List Int :=
-  let s := padShape sa sb
-  match argmaxFirst f (allIdx s) with
-  | some (k, _) => decode sa s k
-  | none => []
+/-! The array twin of the correlation (`toFImg`, `fastLin`, `fastCirc`, `peakOfTable`, `peakOf`, `registerOf`) lives
+in `PewModel.RegisterFast` and is proved equal to the model in `PewTheorems.C12` (`fastLin_eq_xcorr`,
+`fastCirc_eq_xcorrCirc`, `peakOfTable_fast_eq_peak`, `registerOf_fast_eq_register`).  The run-time comparisons below
+(`c12.register`: model and twin over the whole lag box; `c12.registerLong`: model at the decisive lags) are kept as
+a cheap sanity check of the compiled code. -/
 
 def parseBoth (j : Json) : R (Img × FImg) := do
   let shape ← getList asNat j "shape"
   let data ← getList asRat j "data"
   if data.length ≠ shape.foldl (· * ·) 1 then throw "data/shape mismatch"
   if shape.any (· == 0) then throw "empty axis"
-  pure ({ shape := shape, get := mkGet shape data.toArray }, toFImg shape data)
+  pure (mkImg shape data, toFImg shape data)
 
 def samePeak (p q : Peak) : Bool :=
   p.lag == q.lag && p.value == q.value && p.runnerUp == q.runnerUp
